@@ -385,7 +385,7 @@ func (cr *c15run) check(cp *c15policy, r *mon.Rand) {
 		return
 	}
 	kind := cp.kind
-	if i := strings.IndexByte(kind, ':'); i > 0 && cr.cat != "table" {
+	if i := strings.IndexByte(kind, ':'); i > 0 && cr.cat == "random" {
 		w.Count(cr.cat + " " + kind)
 		kind = kind[:i]
 	}
@@ -588,6 +588,35 @@ func (cr *c15run) report(cp *c15policy, ap *ast.Policy, env *model.Env, got Got,
 			}
 			child = a
 		}
+		// a guard in another when/unless clause: does the failing clause alone get rejected?
+		if visited && guard == "none" && len(min.Conds) > 1 {
+			alone := c15ClonePolicy(min)
+			alone.Conds = []model.Cond{alone.Conds[bl.cond]}
+			if ok, _, _ := c15Validate(primary, bridge.ToPolicy(alone)); !ok {
+				var parts []string
+				for i, cnd := range min.Conds {
+					if i == bl.cond {
+						continue
+					}
+					kw := "unless"
+					if cnd.When {
+						kw = "when"
+					}
+					g := cnd.Body
+					neg := ""
+					for g.Op == model.ONot {
+						g = g.Args[0]
+						neg = "!"
+					}
+					rel := "earlier"
+					if i > bl.cond {
+						rel = "later"
+					}
+					parts = append(parts, fmt.Sprintf("%s %s{%s%s(%s)}", rel, kw, neg, c15OpNorm(g), c15Kinds(g, env)))
+				}
+				guard = "in another clause: " + strings.Join(parts, " ")
+			}
+		}
 		switch {
 		case !visited:
 			sig = fmt.Sprintf("accepted[%s] failing sub-term is not type-checked; guard %s got an unsound singleton type", modes, guard)
@@ -738,9 +767,14 @@ func C15(c *mon.Ctx) {
 		"Streams: 'table' = fixed schema with one attribute per value type x every operator / extension function (every argument count 0..3) x every operand-type pair, plus directed guard-shape, " +
 		"hostile-attribute-name, unknown-function and singleton-type probes (enumerated completely); 'random' = generated schemas (2-4 entity types, optional enum type, one namespaced type, all attribute " +
 		"types, optional attributes, record-type and shape variants, tags, action groups) x policies from a type-directed generator incl. has/hasTag guard patterns and if-expressions over operands needing a " +
-		"least upper bound (40%), single-step type/guard-breaking mutants (35%: retype a sub-term, drop/swap/negate/weaken a guard, other attribute or tag key, other variable, other comparable kind in a " +
-		"comparison, non-long arithmetic operand, unknown function, wrong arity), singleton-type probes `E || ILL`, `!E && ILL`, `if E then ILL ..` with a closed ill-typed ILL and an E the validator may fold to " +
-		"True/False (25%); 'corpus' = cedar-go's own corpus-tests archive (Rust-fuzzer schemas, policies, entities, requests; independent of the seed; every 4th case in the quick tier). " +
+		"least upper bound (35%), single-step type/guard-breaking mutants (retype a sub-term, drop/swap/negate/weaken a guard, other attribute or tag key, other variable, other comparable kind in a " +
+		"comparison, non-long arithmetic operand, unknown function, wrong arity; 30%), singleton-type probes `E || ILL`, `!E && ILL`, `if E then ILL ..` with a closed ill-typed ILL and an E the validator may fold to " +
+		"True/False, incl. comparisons against if-built unions of 2-3 entity types (20%), a has/hasTag guard buried in a random && || ! if combination with dynamic and statically True/False operands followed by the " +
+		"guarded use (8%), guard and guarded use split over 2-3 when/unless clauses in either order (7%); 'shapes' = directed, completely enumerated family over a fixed schema: (union) == != in contains containsAny is " +
+		"`is..in` has hasTag between a union of 2-3 entity types (all 36 ordered selections of 4 type names, both operand positions) and an entity of each resource type, guarding an unsafe or ill-typed tail in 6 polarities; " +
+		"(capleak) every && || ! if combination of depth <= 2 (and ifs with a guard-next-to-static operand in each position) over {guard, other guard, dynamic bool, static False (7 forms), static True (6 forms)} containing the guard, " +
+		"x 3 guard kinds (optional entity attribute, tag, optional context attribute) x 4 ways of using the capability; (clauses) 7 guard forms x 3 guard kinds x all when/unless combinations x both orders x an optional neutral " +
+		"third clause in every position (quick tier: every 4th 'union' case, the residue rotating with the seed; everything else in full); 'corpus' = cedar-go's own corpus-tests archive (Rust-fuzzer schemas, policies, entities, requests; independent of the seed; every 4th case in the quick tier). " +
 		"A failing case is shrunk (validator still accepts, same error class) before its signature is built. " +
 		"distinct_nontrivial = distinct (schema, policy) pairs accepted by at least one mode for which at least one evaluation got past the policy scope (corpus: accepted policies evaluated on >=1 conforming request)."
 	c.Assume = []string{
@@ -775,6 +809,33 @@ func C15(c *mon.Ctx) {
 				R: model.Scope{Kind: model.ScAll}, Conds: []model.Cond{{When: true, Body: tc.body}}}
 			cr := &c15run{w: w, b: b, cat: "table", nSt: 16, nReq: 4}
 			cr.check(&c15policy{pol: pol, env: b.sc.envs()[0], kind: tc.kind}, w.Rand())
+		})
+	}
+
+	// ---- shapes (directed, enumerated completely; the quick tier thins out only the highly
+	// redundant 'union' family: every 4th case, the residue rotating with the seed)
+	shapes := c15Shapes()
+	var pick []int
+	nUnion := 0
+	for j, sh := range shapes {
+		if sh.kind == "union" {
+			nUnion++
+			if !c.Thorough() && uint64(nUnion)%4 != c.Seed%4 {
+				continue
+			}
+		}
+		pick = append(pick, j)
+	}
+	c.Extra["shape_cases_total"] = len(shapes)
+	c.Extra["shape_cases_run"] = len(pick)
+	if sb, err := c15Build(c15ShapesSchema()); err != nil {
+		c.Inconclusive("shapes schema does not resolve: " + c15ShortReason(err.Error()))
+	} else {
+		c.ParFor("shapes", len(pick), func(w *mon.W, i int) {
+			sh := shapes[pick[i]]
+			hint := model.Ent(sh.rtype, "a")
+			cr := &c15run{w: w, b: sb, cat: "shapes", nSt: 8, nReq: 4}
+			cr.check(&c15policy{pol: c15ShapePolicy(sh), env: c15ShapeEnv(sb.sc, sh.rtype), hintR: &hint, kind: sh.kind}, w.Rand())
 		})
 	}
 
